@@ -2,6 +2,7 @@ package main
 
 import (
 	"go/token"
+	"go/types"
 	"sort"
 	"strings"
 
@@ -128,6 +129,7 @@ func proofRootTaint(c *Ctx, ix *Index, rule string) int {
 func rulesC04(c *Ctx) {
 	c.Explain = append(c.Explain,
 		"C04 (proofs cannot lie) — decided: (a) every success return of the verifier passes: proof.UntrustedRoot==trusted root, proof version in range, subtree rebuilt without error, ALL entries consumed, and the hash recomputed from the entries equals the trusted root parameter; VerifyProof/VerifyProofToWriteLog return data only on that success; (b) in the recursive rebuild: depth and index guards dominate every recursive call, which passes depth+1; full nodes are decoded from the entry and an internal node's hash is recomputed (UpdateHash) after its children were replaced by recursively verified ones and before the hash is used; (c) remote sync merges a subtree only after VerifyProof's success edge, the merged value is that call's result, MergeVerifiedSubtree is only called from there (and itself), and replaces a node only under hash equality with a clean destination; (d) at every VerifyProof* call site in the module the trusted-root argument does not derive from the proof argument.",
+		"(round 2) (g) C04.depth: the verifier's depth bound covers every tree Insert accepts (fails today: known finding F21, completeness only); (h) C04.prefix: in a prefix fetch Seek(prefix) precedes every use of the iterator position in that iteration; (i) C04.writelog: the key/value pairs reported for a verified proof are appended only by addLeafToWriteLog, which is called only inside the hashing recursion, and VerifyProofToWriteLog returns that log.",
 		"NOT decided: completeness of proof builders (that every node on the path is included), collision resistance, behaviour of remote-backed trees under arbitrary response sequences, correctness of node hashing itself (C02).")
 	verifierCore(c, "C04.verify")
 	ix := c.P.BuildIndex()
@@ -210,6 +212,72 @@ func rulesC04(c *Ctx) {
 	c.OK("C04.errdrop", "storage/mkvs:all-errors-surface", "", itoa(nchk)+" error-returning calls examined: each error is nil-tested, returned on all paths, or handed on")
 	n := proofRootTaint(c, ix, "C04.taint")
 	c.Floor("C04.taint", n, 2, "VerifyProof* call sites outside the verifier")
+
+	// (g) completeness side of the depth bound: the verifier rejects proofs nested deeper than maxProofDepth; an honest
+	// tree nests one level per key that is a proper prefix of the next, up to the bit length a key can have. Either the
+	// bound covers that, or the tree refuses keys long enough to exceed it (a dominating length test on Insert's key).
+	c04Depth(c)
+	// (h) prefix fetches seek every requested prefix; (i) the reported write log is collected only while hashing
+	c04Prefix(c)
+	c04WriteLogSource(c, ix)
+}
+
+func c04Depth(c *Ctx) {
+	const rule = "C04.depth"
+	bound, ok := c.ConstInt("storage/mkvs/syncer", "maxProofDepth")
+	if !ok {
+		c.Fail(rule, "storage/mkvs/syncer.maxProofDepth", "", "the verifier's depth bound constant was not found (unresolved anchor)")
+		return
+	}
+	// maximal key bit length: the range of node.Depth
+	maxBits := int64(0)
+	if pk := c.P.Pkg("storage/mkvs/node"); pk != nil {
+		if tn, ok := pk.Types.Scope().Lookup("Depth").(*types.TypeName); ok {
+			if b, ok := tn.Type().Underlying().(*types.Basic); ok {
+				switch b.Kind() {
+				case types.Uint8:
+					maxBits = 1<<8 - 1
+				case types.Uint16:
+					maxBits = 1<<16 - 1
+				case types.Uint32:
+					maxBits = 1<<32 - 1
+				default:
+					maxBits = 1<<62 - 1
+				}
+			}
+		}
+	}
+	if maxBits == 0 {
+		c.Fail(rule, "storage/mkvs/node.Depth", "", "the key depth type was not found (unresolved anchor)")
+		return
+	}
+	// does Insert bound the key length? (a branch on len(key) against a constant that leads to an error return)
+	limited := false
+	if fn := c.needFn(rule, "storage/mkvs.(*tree).Insert"); fn != nil {
+		c.Analysed[fname(fn)] = true
+		for _, b := range fn.Blocks {
+			ifi := lastIfOf(b)
+			if ifi == nil {
+				continue
+			}
+			if bo, ok := ifi.Cond.(*ssa.BinOp); ok {
+				s := vstr(bo)
+				if strings.Contains(s, "len(param:key)") {
+					if _, isK := constInt(bo.Y); isK {
+						limited = true
+					}
+				}
+			}
+		}
+	}
+	pos := ""
+	if pk := c.P.Pkg("storage/mkvs/syncer"); pk != nil {
+		if o := pk.Types.Scope().Lookup("maxProofDepth"); o != nil {
+			pos = c.P.Pos(o.Pos())
+		}
+	}
+	c.Check(bound >= maxBits+1 || limited, rule, "storage/mkvs/syncer.maxProofDepth:covers the depth of every tree that Insert accepts", pos,
+		"the verifier's depth bound covers every honest tree", "the verifier rejects proofs nested deeper than "+itoa(int(bound))+" levels, but Insert accepts keys of up to "+itoa(int(maxBits))+" bits and an honest tree nests one level per key that is a proper prefix of the next: for a tree holding more than "+itoa(int(bound))+" nested-prefix keys the proof the tree itself produces for the deepest key does not verify, and a remote reader cannot read that key")
 }
 
 func rulesC12(c *Ctx) {
